@@ -279,6 +279,16 @@ func (e *Engine) sliceBound(t Value, def int, max int, what string) int {
 }
 
 func (e *Engine) sliceOp(instr *ssa.Slice, x, lo, hi, max Value) Value {
+	// widen the bounds to 64 bits according to their own Go types (a uint32 bound >= 2^31 must
+	// not be sign-extended)
+	norm := func(v Value, sv ssa.Value) Value {
+		if v == nil {
+			return nil
+		}
+		_, signed, _, _ := basicInfo(sv.Type())
+		return e.tt.Resize(v.(*Term), 64, signed)
+	}
+	lo, hi, max = norm(lo, instr.Low), norm(hi, instr.High), norm(max, instr.Max)
 	switch x := x.(type) {
 	case Str:
 		n := x.Len()
@@ -305,7 +315,10 @@ func (e *Engine) sliceOp(instr *ssa.Slice, x, lo, hi, max Value) Value {
 				panic(e.targetPanicStr("runtime error: slice bounds out of range (clamped slice)"))
 			}
 			if !e.Decide(e.tt.Ule(ht, e.tt.Const(64, uint64(e.cfg.MaxAlloc)))) {
-				panic(boundErr{"slice upper bound beyond alloc bound on a clamped slice" + e.where()})
+				// still longer than the engine can hold: the result stays a clamped slice
+				r := x[l:]
+				e.path.bigLen[&r[0]] = e.tt.Bin(OpSub, ht, e.tt.Const(64, uint64(l)))
+				return r
 			}
 			h := int(e.Concretize(ht, "slice bound"))
 			if l > h {
